@@ -22,7 +22,8 @@ RULE = (
     "instances; file: lines of standalone address tokens of both families in generated spellings, masks, preserved "
     "addresses, addresses constructed so that their image is mask-shaped, near-miss tokens and words; forward pass by "
     "one FileAnonymizer, undo by a new one; expected = input with address tokens canonicalised (masks/preserved as "
-    "written; mask-shaped images stay). cli (thorough): the same through `python -m netconan.netconan` -a then -u in two "
+    "written; mask-shaped images stay). sameobj: forward and undo requests for the same texts interleaved on ONE pair of "
+    "anonymizer objects, each answer compared with fresh objects. cli: the same through `python -m netconan.netconan` -a then -u in two "
     "processes. Non-trivial = address neither mask-shaped nor preserved whose image differs from it (int), file case "
     "with >= 2 such addresses; distinct by case."
 )
@@ -159,6 +160,51 @@ def check_file(case, ev):
     return None
 
 
+def check_sameobj(case, ev):
+    """Forward and undo requests for the same texts through ONE pair of anonymizer objects
+    (library use: anonymize_ip_addr(anonymizer, line, undo)), interleaved; every answer must be
+    what fresh objects give, and undo(forward(L)) must restore L as in check_file."""
+    from netconan.ip_anonymization import anonymize_ip_addr
+
+    cfg = case["cfg"]
+    segs_lines, exc = guarded(lambda: [_resolve({"cfg": cfg, "segs": l}) for l in case["lines"]])
+    if exc is not None:
+        return core.exc_finding(exc, case, "deanonymize/")
+    a4, exc = guarded(G.mk4, cfg)
+    if exc is not None:
+        return core.exc_finding(exc, case, "ctor/")
+    a6 = G.mk6(cfg)
+    fresh4, fresh6 = G.mk4(cfg), G.mk6(cfg)
+
+    def run(o4, o6, text, undo):
+        return anonymize_ip_addr(o4, anonymize_ip_addr(o6, text, undo), undo)
+
+    stats = []
+    for segs in segs_lines:
+        line = "".join(s["s"] for s in segs)
+        want_back = expected_roundtrip(segs, cfg, fresh4, fresh6, stats)
+        steps = [("forward", line, False)]
+        fwd_ref, exc = guarded(run, G.mk4(cfg), G.mk6(cfg), line, False)
+        if exc is not None:
+            return core.exc_finding(exc, case, "forward/")
+        steps += [("undo-of-forward", fwd_ref, True), ("undo-of-original-text", line, True), ("forward-again", line, False), ("forward-of-forward", fwd_ref, False)]
+        order = case.get("order", [0, 1, 2, 3, 4])
+        for k in order:
+            name, text, undo = steps[k % len(steps)]
+            got, exc = guarded(run, a4, a6, text, undo)
+            if exc is not None:
+                return core.exc_finding(exc, case, "sameobj/")
+            ref = run(G.mk4(cfg), G.mk6(cfg), text, undo)
+            if got != ref:
+                ev.case(case, True, ["sameobj"])
+                return Finding("sameobj/%s-differs-from-fresh-objects" % name, "cfg=%r: %s of %r on objects that served earlier requests = %r, on fresh objects %r" % (cfg, name, text, got, ref), case)
+            if name == "undo-of-forward" and got != want_back:
+                ev.case(case, True, ["sameobj"])
+                return Finding("sameobj/undo-does-not-restore", "cfg=%r: %r -> %r -> %r, expected %r" % (cfg, line, fwd_ref, got, want_back), case)
+    ev.case(case, any(s.startswith("restored") for s in stats), sorted(set(stats)) + ["sameobj"])
+    return None
+
+
 def check_cli(case, ev):
     """Forward and undo in two separate interpreter processes through the real command line."""
     cfg = case["cfg"]
@@ -198,7 +244,7 @@ def check_cli(case, ev):
     return None
 
 
-REPLAY = {"int": check_int, "file": check_file, "cli": check_cli}
+REPLAY = {"int": check_int, "file": check_file, "cli": check_cli, "sameobj": check_sameobj}
 
 
 @st.composite
@@ -247,6 +293,17 @@ def _cli_case(draw):
     return c
 
 
+@st.composite
+def _sameobj_case(draw):
+    c = draw(_file_case(max_lines=3))
+    c["order"] = draw(st.permutations([0, 1, 2, 3, 4]))
+    return c
+
+
+def t_sameobj(shard, nshards, seed, ev, known, n=200):
+    return core.hyp_drive(_sameobj_case(), check_sameobj, n, seed, ev, known, check_name="sameobj")
+
+
 def t_int(shard, nshards, seed, ev, known, n=1000):
     return core.hyp_drive(_int_case(), check_int, n, seed, ev, known, check_name="int")
 
@@ -265,4 +322,5 @@ def plan(tier):
         Task("int", t_int, shards=4 if q else 16, n=1000 if q else 30000),
         Task("file", t_file, shards=4 if q else 16, n=250 if q else 4000),
         Task("cli", t_cli, shards=2 if q else 16, n=6 if q else 40),
+        Task("sameobj", t_sameobj, shards=3 if q else 16, n=250 if q else 4000),
     ]
